@@ -34,7 +34,10 @@ EPS = K.EPS
 #   keepLastRow   : defect (b) — gmres drops the last row of H: the iterate is the Galerkin/FOM iterate, not the minimiser
 #   zeroResidual  : a column with b - A x0 = 0 (b = 0, or x0 already exact) is normalised by 0/0: NaN solution
 #   breakdownNotMasked : (floating point only, see c15.py) garbage Arnoldi columns after a breakdown
-PROVISIONAL_KNOWN = {"keepLastRow", "zeroResidual", "breakdownNotMasked"}
+#   maskExact     : the padding mask `largest_vals < 10*tol*overall_max` is a magnitude heuristic: with a large tol (1e-3: 1 %)
+#                   it also hits rows of executed steps whose entries are small, forces that coefficient to 0 and regularises
+#                   the row — the iterate is then neither the minimiser nor the Galerkin iterate (tol >= 0.1 masks everything)
+PROVISIONAL_KNOWN = {"keepLastRow", "zeroResidual", "breakdownNotMasked", "maskExact"}
 # --------------------------------------------------------------------------------------------
 
 WHAT = {
@@ -43,6 +46,9 @@ WHAT = {
                    "the initial residual and grow with m; a singular H_m raises LinAlgError",
     "zeroResidual": "a column whose initial residual b - A x0 is exactly zero (b = 0 or x0 exact) is divided by its norm 0 in "
                     "init_arnoldi: the returned solution is NaN",
+    "maskExact": "the padding mask (rows of H with max |entry| < 10*tol*overall max) is a magnitude heuristic tied to tol: for tol = 1e-3 "
+                 "it masks rows of *executed* steps whose entries are below 1 % of the largest entry, zeroes that coefficient and "
+                 "regularises the row: wrong iterate although m >= grade",
     "breakdownNotMasked": "floating point only: a column whose Krylov space is exhausted keeps being stepped (batch, or breakdown in the "
                           "first step); amplified rounding noise enters H and the padding mask",
 }
@@ -143,6 +149,40 @@ def eval_real(case, M=None):
         return {"exception": f"{type(ex).__name__}: {ex}"}
 
 
+def real_arnoldi(case):
+    """the Arnoldi buffers the real gmres works with (re-computed: gmres does not return them)"""
+    import cola
+    from cola.linalg.decompositions.arnoldi import arnoldi
+    cplx = case["complex"]
+    A = K.fromjson(case["A"], cplx)
+    B = K.fromjson(case["B"], cplx)
+    X0 = K.fromjson(case["X0"], cplx)
+    R0 = (B - X0 @ A.T)
+    try:
+        Q, H, info = arnoldi(cola.ops.Dense(A), np.array(R0.T), max_iters=case["M"], tol=case["tol"])
+        return np.asarray(H.to_dense()), int(info["iterations"]) - 1
+    except Exception:  # noqa: BLE001
+        return None, 0
+
+
+def column_diagnosis(case, H, steps, c):
+    """-> (garbage, mask_inexact): stepping continued after a noise breakdown; the row mask hits an executed step"""
+    A, an = K.norms(case)
+    noise = K.NOISE_REL * an
+    M = case["M"]
+    Hc = H[c]
+    if not np.all(np.isfinite(Hc)):
+        return False, False
+    jn = K.first_small(Hc, steps, noise)
+    garbage = jn < steps - 1
+    Hs = Hc[:M, :M]
+    rowmax = np.abs(Hs).max(axis=1)
+    mask = rowmax < 10 * case["tol"] * rowmax.max()
+    s_eff = min(steps, jn + 1)
+    mask_inexact = any(bool(mask[r]) != (r >= s_eff) for r in range(M) if not (r == s_eff and r < M))
+    return garbage, mask_inexact
+
+
 def krylov_basis(A, r, m):
     """orthonormal basis of K_m(A, r) by Arnoldi with full re-orthogonalisation (oracle only); stops at the grade"""
     n = len(r)
@@ -216,6 +256,12 @@ def compare_real_model(case, real, model):
     if "exception" in real or "error" in model:
         if "exception" in real and "error" not in model and not np.all(np.isfinite(model["x"])):
             return []       # real raises (LinAlgError: singular normal matrix), the model's elimination returns non-finite values
+        if "exception" in real and "error" not in model and "Singular" in real["exception"]:
+            A, an = K.norms(case)
+            st = model["steps"]
+            if any(np.all(np.isfinite(model["H"][c])) and K.first_small(model["H"][c], st, K.NOISE_REL * an) < st - 1
+                   for c in range(model["H"].shape[0])):
+                return []   # amplified noise after a breakdown: whether the normal matrix is exactly singular is not determined
         return [f"real={real.get('exception')} model={model.get('error')}"]
     mism = []
     if real["iterations"] != model["iterations"]:
@@ -260,8 +306,12 @@ def spec_check(case, real):
     k = B.shape[0]
     R0 = B - X0 @ A.T
     zero_res = [c for c in range(k) if np.linalg.norm(R0[c]) == 0.0]
+    Hreal, steps_real = real_arnoldi(case) if not zero_res else (None, 0)
+    diag = [column_diagnosis(case, Hreal, steps_real, c) if Hreal is not None else (False, False) for c in range(k)]
     if "exception" in real:
-        clause = "zeroResidual" if zero_res else ("keepLastRow" if "Singular" in real["exception"] else None)
+        clause = "zeroResidual" if zero_res else None
+        if clause is None and "Singular" in real["exception"]:
+            clause = "breakdownNotMasked" if any(d[0] for d in diag) else "maskExact" if any(d[1] for d in diag) else "keepLastRow"
         return [("raises", clause, real["exception"])]
     xopt, dims = oracle(case)
     # products with the operator: at most min(m, n) Krylov products per column plus the one forming r0
@@ -285,9 +335,9 @@ def spec_check(case, real):
         # which modelled defect could explain a failure of this column?
         grade = case["grades"][c] if c < len(case.get("grades", [])) else n
         m_eff = min(M, n)
-        garbage = (grade < steps) and (k > 1 or grade == 1)       # this column was stepped after its breakdown
+        garbage, mask_inexact = diag[c]                             # stepped after its breakdown / mask hits an executed step
         fom = m_eff < grade                                         # square H differs from the least-squares problem only before the grade
-        clause = "keepLastRow" if fom else ("breakdownNotMasked" if garbage else None)
+        clause = "keepLastRow" if fom else ("breakdownNotMasked" if garbage else "maskExact" if mask_inexact else None)
         slack = 1e-7 * max(res0, resopt) + 1e-9 * nb
         if res > res0 + slack:
             fails.append(("residual<=initial", clause, f"col {c}: |b-Ax| = {res:.6g} > |b-Ax0| = {res0:.6g} (minimal {resopt:.6g})"))
